@@ -1774,3 +1774,24 @@ package engine
 //@   ensures[the-end-of-the-prefix-continues-with-the-tail] Compound.Functor(p.Compound) == atomDot && Compound.Arity(p.Compound) == 2 && n == 1 && inner == atomEmptyList ==> result == *(p.tail)
 //@   ensures[the-rest-of-the-prefix-shares-the-tail] Compound.Functor(p.Compound) == atomDot && Compound.Arity(p.Compound) == 2 && n == 1 && inner != atomEmptyList ==>
 //@       result is *partial && (result as *partial).Compound == (inner as Compound) && (result as *partial).tail == p.tail
+
+//@ ---------------------------------------------------------------- compiling head and body arguments (C05)
+
+//@ func (*clause).compileHeadArg
+//@   property C05
+//@   safety only tassert
+//@   requires c != nil
+//@   trusted-frame
+//@   loop 1 invariant true
+//@   loop 2 invariant true
+//@   loop 3 invariant true
+//@   loop 4 invariant true
+//@ func (*clause).compileBodyArg
+//@   property C05
+//@   safety only tassert
+//@   requires c != nil
+//@   trusted-frame
+//@   loop 1 invariant true
+//@   loop 2 invariant true
+//@   loop 3 invariant true
+//@   loop 4 invariant true
